@@ -283,7 +283,8 @@ class VmWorld(HistoryWorld):
     run_timeout = 20   # slowest legitimate run is well under 0.2 s
     name = 'VM'
     chunk = 50
-    legs = {'quick': [('main', 30000)], 'thorough': [('main', 1000000)]}
+    legs = {'quick': [('main', 30000), ('deep', 32)], 'thorough': [('main', 1000000), ('deep', 400)]}
+    DEPTHS = [256, 400, 499, 500, 501, 502, 512, 600, 700, 900, 990, 1000, 1001, 1020, 1022, 1023]
     budget = {'quick': 100, 'thorough': 1500}
     real_code = ['pytoniq_core.tlb.vm_stack (VmStack, VmStackList, VmStackValue, VmTuple, VmTupleRef, VmCellSlice, VmCont, VmControlData)']
     stubs = ['reference VmStack encoder and slice-tolerant decoder (refmodel/vm.py)', 'deep snapshots of the caller-held values']
@@ -299,6 +300,10 @@ class VmWorld(HistoryWorld):
         return ['(M) fault-free repeated-call histories', 'refmodel/vm.py written from block.tlb is the trusted base', 'carve-outs: -2^63 may use either integer form; NaN']
 
     def make_config(self, rng, leg, run_index):
+        if leg == 'deep':
+            # the statement quantifies over stacks of every depth: as deep as a chain of cells can be (1023 list cells)
+            d = self.DEPTHS[run_index % len(self.DEPTHS)]
+            return {'steps': 4, 'depth': d if run_index < len(self.DEPTHS) else rng.randint(257, 1023), 'fill_seed': rng.getrandbits(32)}
         return {'steps': rng.choice([4, 8, 16, 30])}
 
     def new_state(self, ctx):
@@ -310,6 +315,11 @@ class VmWorld(HistoryWorld):
 
     def gen_op(self, st, ctx):
         rng = ctx.rng
+        if ctx.cfg.get('depth'):
+            k = len(ctx.ops)
+            if k == 0:
+                return {'op': 'push_many', 'n': ctx.cfg['depth'], 'seed': ctx.cfg['fill_seed']}
+            return [{'op': 'serialize'}, {'op': 'deserialize'}, {'op': 'serialize'}][(k - 1) % 3]
         r = rng.random()
         if st.lib and has_bad(st.model) and r < 0.5:
             return {'op': 'repair'}
@@ -344,6 +354,24 @@ class VmWorld(HistoryWorld):
             ctx.probe('int-at-64-bit-boundary')
         if k == 'cont':
             ctx.probe('continuation')
+
+    def op_push_many(self, st, op, ctx):
+        """A deep stack of small values: integers (tiny and 257-bit form), nulls, now and then a short tuple."""
+        r = random.Random(op['seed'])
+        for i in range(op['n']):
+            x = r.random()
+            if x < 0.80:
+                item = ['int', r.choice([i, -i, r.getrandbits(20), 2 ** 63 + i, -2 ** 200 - i])]
+            elif x < 0.92:
+                item = ['null']
+            else:
+                item = ['tuple', [['int', i], ['int', 7]]]
+            l, m = build(item)
+            st.lib.append(l)
+            st.model.append(m)
+        st.last = None
+        d = op['n']
+        ctx.probe('deep-stack/%s' % ('<=500' if d <= 500 else '501..999' if d < 1000 else '1000..1023'))
 
     def op_pop(self, st, op, ctx):
         if st.lib:
